@@ -372,10 +372,12 @@ package sqlittle
 //@   ensures [copied] result ==> (forall k int :: 0 <= k && k < len(indexes) ==> key[k].V == r[indexes[k]] && key[k].Collate == old(key[k].Collate) && key[k].Desc == old(key[k].Desc))
 //@   ensures [rest] forall k int :: len(indexes) <= k && k < len(key) ==> key[k] == old(key[k])
 //@   ensures [flagskept] forall k int :: 0 <= k && k < len(key) ==> key[k].Collate == old(key[k].Collate) && key[k].Desc == old(key[k].Desc)
+//@   ensures [only] only_region(key)
 //@   loop 1 invariant 0 <= $i && $i <= len(indexes) && len(indexes) <= len(key)
 //@   loop 1 invariant forall k int :: 0 <= k && k < $i ==> 0 <= indexes[k] && indexes[k] < len(r) && key[k].V == r[indexes[k]] && key[k].Collate == old(key[k].Collate) && key[k].Desc == old(key[k].Desc)
 //@   loop 1 invariant forall k int :: $i <= k && k < len(key) ==> key[k] == old(key[k])
 //@   loop 1 invariant [flagskept] forall k int :: 0 <= k && k < len(key) ==> key[k].Collate == old(key[k].Collate) && key[k].Desc == old(key[k].Desc)
+//@   loop 1 invariant [only] only_region(key)
 //@   loop 1 decreases len(indexes) - $i
 
 // ---------------------------------------------------------------------------------------
@@ -410,8 +412,10 @@ package sqlittle
 // row is looked up in the table's own index tree. Parents and per-entry closures are verified
 // (locking, closure creation, no panic, scan protocol, every failure of the nested lookup recorded in
 // cbErr and reported). The per-entry closures write the caller-owned key slice pk, which the
-// component-granular frame of the callback protocol (RecordCB excludes KeyCol) cannot express: that pk
-// shares no memory with the enclosing scan's key is a listed assumption (`frame-seam`). That the row
+// component-granular frame of the callback protocol (RecordCB excludes KeyCol) cannot express. Proved
+// instead: the callbacks write no other region of key memory than pk's (`only_region(pk)`), and pk's
+// region is not the region of the enclosing scan's key; what stays a listed assumption (`frame-seam`)
+// is that the scans depend on key memory only through their own key. That the row
 // handed to the user is the table row stored under exactly that key is not stated (it would need the
 // nested scan's position ghosts exported through every walker protocol).
 //@ func sqlittle.indexedSelectNonRowid
@@ -439,11 +443,12 @@ package sqlittle
 //@   free-requires !direct
 //@   creation-requires [pkflags] len(pk) == len(schema.PK) && (forall i int :: 0 <= i && i < len(pk) ==> (pk[i].Desc <==> schema.PK[i].SortOrder == 1))
 //@   implements functype db.RecordCB
-//@   frame-seam M:S_db_KeyCol the key slice pk written here (fresh from asDbKey in the parent) shares no memory with the key of the enclosing scan
+//@   frame-seam M:S_db_KeyCol the callers of the protocol depend on key memory only through the region of the scan's own key; proved here: only pk's region is written ([only-pk]) and pk is not the scan key ([separate], fresh from asDbKey)
 //@   uses index_tree index_sorted
 //@   free-requires cb != nil && tab != nil && CIS_OK(ci) && vianr && !viaidx && tree_of(tab.root) == tab.root
 //@   free-requires [samelen] len(cols) == len(pk)
 //@   closure-invariant [pkcoll] forall qk int :: 0 <= qk && qk < len(pk) ==> COLLFN(pk[qk]) != nil
+//@   ensures [only-pk] only_region(pk)
 //@   ensures [latch] old(cbErr) != nil ==> cbErr != nil
 //@   ensures [reported] done ==> cbErr != nil
 //@   ghost-exit scan_ok = old(scan_ok)
@@ -482,13 +487,15 @@ package sqlittle
 
 //@ func sqlittle.indexedSelectEqNonRowid$1
 //@   free-requires !direct
+//@   creation-requires [separate] reg(pk) != reg(key)
 //@   creation-requires [pkflags] len(pk) == len(schema.PK) && (forall i int :: 0 <= i && i < len(pk) ==> (pk[i].Desc <==> schema.PK[i].SortOrder == 1))
 //@   implements functype db.RecordCB
-//@   frame-seam M:S_db_KeyCol the key slice pk written here (fresh from asDbKey in the parent) shares no memory with the key of the enclosing scan
+//@   frame-seam M:S_db_KeyCol the callers of the protocol depend on key memory only through the region of the scan's own key; proved here: only pk's region is written ([only-pk]) and pk is not the scan key ([separate], fresh from asDbKey)
 //@   uses index_tree index_sorted
 //@   free-requires cb != nil && tab != nil && CIS_OK(ci) && vianr && !viaidx && tree_of(tab.root) == tab.root
 //@   free-requires [samelen] len(cols) == len(pk)
 //@   closure-invariant [pkcoll] forall qk int :: 0 <= qk && qk < len(pk) ==> COLLFN(pk[qk]) != nil
+//@   ensures [only-pk] only_region(pk)
 //@   ensures [latch] old(cbErr) != nil ==> cbErr != nil
 //@   ensures [reported] done ==> cbErr != nil
 //@   ghost-exit scan_ok = old(scan_ok)
